@@ -7,6 +7,10 @@ CONSTANTS
   KText = 1
   KWire = 1
   VAlpha = {0, 65, 91, 97}
+  BigK = {1, 2, 61, 62, 63}
+  BigFill = {255, 97, 90}
+  PairAlpha = {0, 64, 65, 90, 91, 96, 97, 122, 123, 255}
+  ZAlpha = {65}
   Modes = {"pair", "triple", "neigh", "cons"}
 INVARIANT Total
 INVARIANT Antisymmetric
